@@ -10,9 +10,15 @@ Driver ops of C17.
                codec given as a finite table by the harness (computed with the real codecs) → what the plug-in's
                core is handed / what is returned or written; `parse_files` over any list of base names
   pathfn       os.path.splitext / posixpath.join
+  modfile      pybtex.database.parse_file / BibliographyData.to_file: the class chosen for a `file` argument of any
+               kind (str path, bytes path, file-like with a name that is absent / str / bytes / int) and a format
+  openx        openmatrix in a world where chosen `io.open` calls / starting kpsewhich raise an exception that is
+               NOT an EnvironmentError (`other`: [path argument, tag]; `locate_raise`: tag or null)
+  guard        BaseParser.parse_string / parse_bytes on a value of either type (isinstance guards)
 -/
 import PybtexModel.Drv.Json
 import PybtexModel.Model.IO
+import PybtexModel.Model.IOArgs
 import PybtexModel.Spec.Plugins
 import PybtexModel.Gen.Plugins
 open Lean
@@ -338,8 +344,100 @@ def pathfn (j : Json) : Except String Json := do
   | "join" => pure (obj [("out", strToJson (posixJoin (← getStr j "a") (← getStr j "b")))])
   | _ => throw s!"unknown pathfn {fn}"
 
+/-! ### modfile -/
+
+def parseModFile (j : Json) : Except String ModFileArg := do
+  let k ← (← j.getObjVal? "k").getStr?
+  match k with
+  | "str" => pure (.strPath (← getStr j "v"))
+  | "bytes" => pure (.bytesPath (← getBytes j "v"))
+  | "like" =>
+    let n ← j.getObjVal? "name"
+    match n with
+    | .null => pure (.fileLike .absent)
+    | _ =>
+      let t ← (← n.getObjVal? "t").getStr?
+      match t with
+      | "str" => pure (.fileLike (.str (← getStr n "v")))
+      | "bytes" => pure (.fileLike (.bytes (← getBytes n "v")))
+      | "int" => pure (.fileLike (.int (← getInt n "v")))
+      | _ => throw s!"unknown name kind {t}"
+  | _ => throw s!"unknown file kind {k}"
+
+def modfile (j : Json) : Except String Json := do
+  let side ← (← j.getObjVal? "side").getStr?
+  let fmt ← parseNameArg (← j.getObjVal? "fmt")
+  let file ← parseModFile (← j.getObjVal? "file")
+  let r := if side == "read" then moduleReaderFor Gen.installedPlugins Gen.defaultPlugins [] fmt file
+           else moduleWriterFor Gen.installedPlugins Gen.defaultPlugins [] fmt file
+  pure (obj [("out", match r with | .ok k => obj [("cls", strToJson k)] | .error e => plugErrJ e),
+             ("spec", obj [("filename", optJ strToJson (moduleFileName file))])])
+
+/-! ### openx -/
+
+def openedXJ : Except (OpenExc Str) (Opened PathArg Unit) → Json
+  | .ok (.passthrough _) => obj [("ok", Json.str "passthrough")]
+  | .ok (.handle h) => obj [("ok", obj [("handle", pathArgJ h)])]
+  | .error (.pybtex e) => obj [("err", obj [("kind", Json.str "PybtexError"), ("filename", strToJson e.filename),
+                                           ("message", strToJson e.message)])]
+  | .error (.other x) => obj [("raised", strToJson x)]
+
+def openx (j : Json) : Except String Json := do
+  let w ← j.getObjVal? "world"
+  let base ← parseWorld w
+  let other ← (← getArr w "other").mapM fun p => do
+    let a ← p.getArr?
+    pure (← parsePathArg a[0]!, ← jsonToStr a[1]!)
+  let locRaise ← getOptStr w "locate_raise"
+  let envx : EnvX PathArg Str :=
+    { opener := fun p m k => match other.find? (fun f => f.1 == p) with
+        | some f => .error (.other f.2)
+        | none => (base.toX (X := Str)).opener p m k
+      isFile := base.isFile
+      runKpsewhich := fun p => match locRaise with
+        | some t => .error (.other t)
+        | none => (base.toX (X := Str)).runKpsewhich p
+      environ := base.environ }
+  let fn ← (← j.getObjVal? "fn").getStr?
+  let mode ← getStr j "mode"
+  let enc ← getOptStr j "encoding"
+  let path ← getStr j "path"
+  let file : FileArg Unit := .path path
+  let r ← match fn with
+    | "raw" => pure (openRawX envx file mode enc)
+    | "unicode" => pure (openUnicodeX envx file mode enc)
+    | _ => throw s!"unknown fn {fn}"
+  pure (obj [("out", obj [("events", arr (r.1.map eventJ)), ("result", openedXJ r.2)])])
+
+/-! ### guard -/
+
+def guard (j : Json) : Except String Json := do
+  let u ← getBool j "u"
+  let kind ← (← j.getObjVal? "kind").getStr?
+  let k : ReaderKind := if kind == "bibtex" then .bibtex else .base u
+  let cls ← getStr j "cls"
+  let entry ← (← j.getObjVal? "entry").getStr?
+  let c ← parseCodec (← getArr j "codec")
+  let v ← j.getObjVal? "val"
+  let t ← (← v.getObjVal? "t").getStr?
+  let val : PyVal ← match t with
+    | "str" => do pure (.str (← getStr v "v"))
+    | "bytes" => do pure (.bytes (← getBytes v "v"))
+    | _ => throw s!"unknown value kind {t}"
+  let r ← match entry with
+    | "parse_string" =>
+      if kind == "bibtex" then throw "parse_string of a class that overrides it has no guard in the model"
+      else pure (parseStringAny u cls recReader c [] val)
+    | "parse_bytes" => pure (parseBytesAny k cls recReader c [] val)
+    | _ => throw s!"unknown entry {entry}"
+  pure (obj [("out", match r with
+    | .ok d => recJ d
+    | .error (.valueError m) => obj [("err", Json.str "ValueError"), ("message", strToJson m)]
+    | .error (.reader e) => rerrJ e)])
+
 /-- driver ops of this property: (op name, handler) -/
 def handlers : List (String × (Json → Except String Json)) :=
-  [("plughist", plughist), ("openmatrix", openmatrix), ("entrypoints", entrypoints), ("pathfn", pathfn)]
+  [("plughist", plughist), ("openmatrix", openmatrix), ("entrypoints", entrypoints), ("pathfn", pathfn),
+   ("modfile", modfile), ("openx", openx), ("guard", guard)]
 
 end Pybtex.Drv.C17
